@@ -11,6 +11,7 @@ import (
 	"context"
 	"sort"
 	"sync"
+	"time"
 
 	"github.com/VKCOM/tl/pkg/rpc"
 
@@ -122,20 +123,76 @@ func (v *VerifC01Agent) CheckOutOfWindow(nowUnix uint32, c VerifC01Cbd, historic
 // AppendHistoric = real appendHistoricBucketsToSend (what goEraseHistoric does with a second it keeps).
 func (v *VerifC01Agent) AppendHistoric(c VerifC01Cbd) { v.shard.appendHistoricBucketsToSend(c.cbd()) }
 
-// SetMemoryPressure makes the historic in-memory budget look used up (or free again). Returns the value set.
-func (v *VerifC01Agent) SetMemoryPressure(on bool) {
+// AddHistoricDataSize adds delta to historicBucketsDataSize: the harness's "ballast" that stands for other queued data
+// (the limit is a 50 MiB constant; real ballast would cost 50 MiB per case). The harness accounts for it exactly.
+func (v *VerifC01Agent) AddHistoricDataSize(delta int) {
 	v.shard.mu.Lock()
 	defer v.shard.mu.Unlock()
-	limit := data_model.MaxHistoricBucketsMemorySize / v.A.NumShards()
-	cur := 0
+	v.shard.historicBucketsDataSize += delta
+	v.A.historicBucketsDataSize.Add(int64(delta))
+}
+
+// HistoricDataSize = the counter appendHistoricBucketsToSend compares with the limit.
+func (v *VerifC01Agent) HistoricDataSize() int {
+	v.shard.mu.Lock()
+	defer v.shard.mu.Unlock()
+	return v.shard.historicBucketsDataSize
+}
+
+// QueueDataBytes = what the queue really holds.
+func (v *VerifC01Agent) QueueDataBytes() int {
+	v.shard.mu.Lock()
+	defer v.shard.mu.Unlock()
+	n := 0
 	for _, c := range v.shard.historicBucketsToSend {
-		cur += len(c.data)
+		n += len(c.data)
 	}
-	if on {
-		v.shard.historicBucketsDataSize = cur + limit
+	return n
+}
+
+func (v *VerifC01Agent) MemLimit() int { return data_model.MaxHistoricBucketsMemorySize / v.A.NumShards() }
+
+// SetDiskOk(false) = MaxHistoricDiskSize set to 0 at run time (remote config): diskCachePutWithLog stops writing.
+func (v *VerifC01Agent) SetDiskOk(ok bool) {
+	v.shard.mu.Lock()
+	defer v.shard.mu.Unlock()
+	if ok {
+		v.shard.config.MaxHistoricDiskSize = DefaultConfig().MaxHistoricDiskSize
 	} else {
-		v.shard.historicBucketsDataSize = cur
+		v.shard.config.MaxHistoricDiskSize = 0
 	}
+}
+
+func (c VerifC01Cbd) Len() int { return len(c.data) }
+
+// StartHistoric starts the REAL consumers of the historic queue (goSendHistoric x n, goEraseHistoric) and a flusher
+// that calls the real flushBuckets(time.Now()) every 100 ms as goFlusher does; flushed (empty) buckets are drained.
+func (v *VerifC01Agent) StartHistoric(ctx context.Context, senders int) {
+	var wg sync.WaitGroup
+	wg.Add(senders + 1)
+	for i := 0; i < senders; i++ {
+		go v.shard.goSendHistoric(&wg, ctx)
+	}
+	go v.shard.goEraseHistoric(&wg, ctx)
+	go func() {
+		for {
+			select {
+			case <-v.shard.BucketsToPreprocess:
+			case <-ctx.Done():
+				return
+			}
+		}
+	}()
+	go func() {
+		for {
+			select {
+			case <-ctx.Done():
+				return
+			case <-time.After(100 * time.Millisecond):
+			}
+			v.shard.flushBuckets(time.Now())
+		}
+	}()
 }
 
 func (v *VerifC01Agent) SetAlive(replica int, alive bool) { v.A.ShardReplicas[replica].alive.Store(alive) }
